@@ -29,7 +29,18 @@ def nullable_first(g):
                 if not (s[0] == 'n' and s[1] in nullable): break
     return nullable, first
 
+_MEMO = {}
 def build(g):
+    """memoised per process (small window): workers look at the same grammar several times"""
+    import json
+    k = json.dumps(g.to_json(), sort_keys=True)
+    tb = _MEMO.get(k)
+    if tb is None:
+        if len(_MEMO) > 48: _MEMO.clear()
+        tb = _MEMO[k] = _build(g)
+    return tb
+
+def _build(g):
     """Returns a Table with states (frozensets of (rule, dot, la)), goto, cells and conflicts.
     Rule index len(g.rules) is the augmented rule S' -> root."""
     R = len(g.rules)
@@ -211,3 +222,31 @@ def parse(tb, toks, recover=True, max_steps=None):
             res.ok = True; res.tree = vals[0]; res.actions.append(('acc',)); return res
         else:
             res.rr = True; return res
+
+
+def state_need(g, tb):
+    """(required, allowed, cap): number of reference states the library has to build (reachable without the shifts that the
+    documented S/R resolution removes and without R/R cells, whose treatment is undefined), the number it may build, and the
+    library's default state cap  sum(len(rule) + 1) * (terms + 2) + 2"""
+    out = {}
+    for (i, sym), j in tb.goto.items(): out.setdefault(i, []).append((sym, j))
+    def reach(certain):
+        seen = {0}; work = [0]
+        while work:
+            x = work.pop()
+            for sym, j in out.get(x, ()):
+                if sym[0] != 'n':
+                    conf = tb.conflicts.get((x, g.symterm(sym)))
+                    if conf is not None:
+                        if conf['kind'] == 'sr':
+                            if conf['prefer'] != 'shift': continue
+                        elif certain: continue
+                if j not in seen: seen.add(j); work.append(j)
+        return seen
+    cap = sum(len(r.rhs) + 1 for r in g.rules) * (g.T + 2) + 2
+    return len(reach(True)), len(reach(False)), cap
+
+def beyond_default_cap(g, tb=None):
+    """the grammar needs more LR(1) states than the library's default cap (recorded finding D16, the subject of C12 only)"""
+    req, _, cap = state_need(g, tb if tb is not None else build(g))
+    return req > cap
